@@ -13,6 +13,10 @@
 (*                                                                         *)
 (* CloseMode = "explicit"   with-block / close(): the code as it is        *)
 (*           = "finaliser"  open(...) passed as an argument and dropped    *)
+(*           = "raw-unchecked"  the file is opened UNBUFFERED: write() is  *)
+(*                          the system call, which on a full device takes  *)
+(*                          part of the bytes and RETURNS THE COUNT; the   *)
+(*                          program does not look at it                    *)
 (***************************************************************************)
 EXTENDS Naturals, Sequences, TLC
 
@@ -32,7 +36,10 @@ Drain(n) == IF DevFailsAt # 0 /\ onDisk + n > DevFailsAt THEN [disk |-> onDisk, 
 Write ==
   /\ pc = "writing" /\ calls < NWrites
   /\ calls' = calls + 1
-  /\ IF buffered + 1 > Cap
+  /\ IF CloseMode = "raw-unchecked"
+     THEN LET d == Drain(1) IN
+          /\ onDisk' = d.disk /\ lost' = (lost \/ d.fail) /\ UNCHANGED <<buffered, raised, pc>>      \* a short count, ignored
+     ELSE IF buffered + 1 > Cap
      THEN LET d == Drain(buffered) IN          \* the buffer is emptied first: here the error of EARLIER bytes surfaces
           /\ onDisk' = d.disk
           /\ IF d.fail THEN lost' = TRUE /\ raised' = TRUE /\ pc' = "failed" /\ buffered' = 0
